@@ -134,3 +134,28 @@ func init() {
 		fmt.Println("obligations:", len(c.Run.Obls))
 	}
 }
+
+func init() {
+	// lwstatic dump e1band <Name>: interpret band.GetConfig(name, false, DwellTimeNoLimit) in E1 and show the result kind
+	dumpers["e1band"] = func(p *load.Program, args []string) {
+		if len(args) < 1 {
+			fmt.Println("dump e1band <name>")
+			return
+		}
+		in := absint.NewInterp(p)
+		var res []absint.Value
+		err := in.Try(func() {
+			res = in.CallFunc("band", "GetConfig", &absint.StrVal{Known: true, S: args[0]}, in.D.Bool(absint.False), in.D.Const(0, 64, true))
+		})
+		if err != nil {
+			fmt.Println("UNDECIDED:", err)
+			return
+		}
+		fmt.Println("error:", in.Show(res[1]))
+		s := in.Show(res[0])
+		if len(s) > 600 {
+			s = s[:600]
+		}
+		fmt.Println("band :", s)
+	}
+}
